@@ -286,6 +286,17 @@ def install():
     socketutil.time = S.VTime
     svr_threads.Housekeeper = _NoHousekeeper
 
+    # Pool keeps its workers in sets; give them a creation-order hash so set iteration/pop is reproducible
+    _winit = svr_threads.Worker.__init__
+
+    def worker_init(self, pool):
+        _winit(self, pool)
+        sc = S.CUR
+        sc.counter["whash"] = sc.counter.get("whash", 0) + 1
+        self._verif_hash = sc.counter["whash"]
+    svr_threads.Worker.__init__ = worker_init
+    svr_threads.Worker.__hash__ = lambda self: getattr(self, "_verif_hash", 0)
+
     def worker_start(self):
         S.CUR.adopt_start(self, "w")
     svr_threads.Worker.start = worker_start
